@@ -132,8 +132,9 @@ func Boundaries(thorough bool) []*Boundary {
 }
 
 // BoundaryObls: concrete obligations of one boundary program under one configuration.
-//   boundary-compile: Compile succeeds exactly when the limits allow it, otherwise returns an error; it never panics
-//   boundary-run    : one concrete Eval of the compiled program (b*=true, i*=1) returns the reference value
+//
+//	boundary-compile: Compile succeeds exactly when the limits allow it, otherwise returns an error; it never panics
+//	boundary-run    : one concrete Eval of the compiled program (b*=true, i*=1) returns the reference value
 func (cx *Checker) BoundaryObls(c *Case, b *Boundary) []*core.Obl {
 	oc := cx.newObl("boundary-compile", c)
 	p := c.Prog
